@@ -39,15 +39,24 @@ class Trace(multi.Obs):
         a = u.actuator
         for key, m in u.m.items():
             self._wrap_market(key, m)
-        orig_cb = a.broker._record_action_callback
+        # records are observed where the Actuator keeps them (its action list), not by replacing the markets' callbacks:
+        # how a market comes to report to this Actuator (Broker.add_market) is part of what is checked
+        ev = self.ev
 
-        def cb(action, _o=orig_cb):
-            _o(action)
-            self.ev.append(("record", action, action.timestamp))
+        class Tap(list):
+            def append(self, action):
+                list.append(self, action)
+                ev.append(("record", action, action.timestamp))
 
-        a.broker._record_action_callback = cb
-        for m in u.m.values():
-            m._record_action_callback = cb
+        assert not a._action_list
+        a._action_list = Tap()
+        o_reset = a.reset
+
+        def reset(_o=o_reset):  # Actuator.run() starts with reset(), which makes a new list
+            _o()
+            a._action_list = Tap()
+
+        a.reset = reset
 
     def _wrap_market(self, key, m):
         o_status, o_update = m.set_market_status, m.update
